@@ -803,6 +803,36 @@ func casterC08(c *Ctx) {
 					okz = fs >= 0 && !P.PathExists(q.fn, aif, an.Is(r), nil, cutEdge(aif, fs))
 				}
 				q.add("PATH", "Send returns 0 only while nothing was armed (no receivers)", okz, "zero return not reachable from a successful arming CAS", r)
+				// ... and only because a loaded state was 0: the return is reached only through the "== 0" edge of a test of
+				// a state Load (the unlocked fast path and the locked early exit alike)
+				zifs, znegs := P.IfsOn(q.fn, func(cond ssa.Value) bool {
+					b, ok := cond.(*ssa.BinOp)
+					if !ok || (b.Op != token.EQL && b.Op != token.NEQ) {
+						return false
+					}
+					return either(b, func(v ssa.Value) bool {
+						for _, s := range P.Sources(v) {
+							if !P.IsCallResult(s, "(*sync/atomic.Uint64).Load", 0) {
+								return false
+							}
+						}
+						return len(P.Sources(v)) > 0
+					}, isZero)
+				})
+				okl := false
+				for i, zi := range zifs {
+					zs := 0
+					if znegs[i] {
+						zs = 1
+					}
+					if stripNotV(zi.Cond).(*ssa.BinOp).Op == token.NEQ {
+						zs = 1 - zs
+					}
+					if q.onlyViaEdge(r, zi, zs) {
+						okl = true
+					}
+				}
+				q.add("PATH", "Send gives up without sending only when the state it loaded is 0", okl, pickS(okl, "the zero return is reached only through state == 0", "Send can return 0 without delivering although receivers are registered (the state == 0 test is inverted or gone)"), r)
 				continue
 			}
 			okr := rif != nil && P.Before(q.fn, an.Is(reset), r)
